@@ -468,7 +468,8 @@ impl Evidence {
     pub fn write(&self) -> std::io::Result<PathBuf> {
         let dir = std::env::var_os("VERIF_EVIDENCE_OUT").map(PathBuf::from).unwrap_or_else(|| verif_root().join("evidence"));
         std::fs::create_dir_all(&dir)?;
-        let p = dir.join(format!("{}.json", self.prop));
+        // a second engine serving the same property writes a part file that the driver merges
+        let p = dir.join(format!("{}{}.json", self.prop, std::env::var("VERIF_EVIDENCE_SUFFIX").unwrap_or_default()));
         let mut coverage = serde_json::Map::new();
         coverage.insert("evaluations".into(), json!(self.stats.evaluations));
         coverage.insert(
